@@ -1,9 +1,11 @@
 package main
 
 import (
+	"context"
 	"errors"
 	"fmt"
 	"net"
+	"net/netip"
 	"os"
 	"path/filepath"
 	"runtime"
@@ -153,6 +155,12 @@ func runC20(c *Ctx) error {
 		}
 		ids = append(ids, a)
 	}
+	var special []*m.Address
+	for _, p := range []netip.Prefix{m.RoamingPrefix, m.ExperimentsPrefix} {
+		if a, _, err := m.GenerateRoutableAddress(context.Background(), []netip.Prefix{p, m.OrganizationPrefix, m.AnycastPrefix}, nil, 12); err == nil && a != nil {
+			special = append(special, a)
+		}
+	}
 	base := goroutines()
 	cycles := c.Pick(3, 9)
 	for cy := 0; cy < cycles; cy++ {
@@ -197,9 +205,15 @@ func runC20(c *Ctx) error {
 			}
 			return st
 		}
-		label := fmt.Sprintf("cycle=%d/short=%v/host=%s/universe=%q/secret=%v/bootstrap-only=%v", cy, shortForm, host, universe, secret != "", cy%3 == 2)
-		stA := mkStore(ids[0], portA, nil, 0)
-		stB := mkStore(ids[1], portB, []string{fmt.Sprintf("tcp://%s:%d", host, portA)}, 1)
+		label := fmt.Sprintf("cycle=%d/short=%v/host=%s/universe=%q/secret=%v/bootstrap-only=%v/special-range-identities=%v", cy, shortForm, host, universe, secret != "", cy%3 == 2, cy%3 == 1)
+		// every third cycle the routers' own addresses come from the ranges without a country marker
+		// (roaming, organisation, anycast, experiments): valid identities like any other
+		idA, idB := ids[0], ids[1]
+		if cy%3 == 1 && len(special) == 2 {
+			idA, idB = special[0], special[1]
+		}
+		stA := mkStore(idA, portA, nil, 0)
+		stB := mkStore(idB, portB, []string{fmt.Sprintf("tcp://%s:%d", host, portA)}, 1)
 		cfgA, err := stA.Parse()
 		if err != nil {
 			c.Violate("a valid relay-only configuration does not parse: "+err.Error(), "config-parse", map[string]any{"cfg": label})
@@ -234,7 +248,7 @@ func runC20(c *Ctx) error {
 		linked := false
 		for t := 0; t < 120; t++ {
 			time.Sleep(50 * time.Millisecond)
-			if A.Peering().GetLink(ids[1].IP) != nil && B.Peering().GetLink(ids[0].IP) != nil {
+			if A.Peering().GetLink(idB.IP) != nil && B.Peering().GetLink(idA.IP) != nil {
 				linked = true
 				break
 			}
